@@ -34,14 +34,17 @@ def axisStepF (scalar coord start peak end_ : FVal) : Option FVal :=
     some (div f32 (mul f32 scalar (sub f32 coord start)) (sub f32 peak start))
   else some (div f32 (mul f32 scalar (sub f32 end_ coord)) (sub f32 end_ peak))
 
-/-- the loop: `coords.get(i).map(|c| c.to_f32()).unwrap_or(0.0)`. -/
+/-- `coords.get(i).map(|coord| coord.to_f32()).unwrap_or(0.0)` for the current axis. -/
+def coordF (coords : List Int) : FVal :=
+  match coords with
+  | [] => zero
+  | c :: _ => f2ToF32 c
+
+/-- the loop of `compute_scalar_f32`. -/
 def scalarGoF (scalar : FVal) : List (Int × Int × Int) → List Int → FVal
   | [], _ => scalar
   | (s, p, e) :: rest, coords =>
-    let c := match coords with
-      | [] => zero
-      | c :: _ => f2ToF32 c
-    match axisStepF scalar c (f2ToF32 s) (f2ToF32 p) (f2ToF32 e) with
+    match axisStepF scalar (coordF coords) (f2ToF32 s) (f2ToF32 p) (f2ToF32 e) with
     | none => zero
     | some sc => scalarGoF sc rest coords.tail
 
